@@ -541,11 +541,50 @@ def lexer_split_invariance(ctx):
     nh, xh = ctx.anchor_hir(new), ctx.anchor_hir(nx)
     nps, xps = ctx.prog.fns[new]["params"], ctx.prog.fns[nx]["params"]
 
+    import re as _re
+    statics = {}
+    for name_, f_ in ctx.prog.fns.items():
+        if name_.startswith("lexer::") and name_.rsplit("::", 1)[-1].isupper() and "hir" in f_:
+            lits_ = [x["v"] for x in walk_exprs(f_["hir"]) if x["k"] == "Lit" and x.get("lk") == "str"]
+            if len(lits_) == 1:
+                statics[name_] = lits_[0]
+
+    def rx_call(node, recv, args, it, env):
+        """the regex crate by contract, for the static patterns of the lexer (their literal is read from the source; the syntax
+        used there - digits classes, groups, ?, counted repetition - means the same in Python's re)"""
+        m_ = node.get("m")
+        if m_ in ("captures", "is_match", "find") and isinstance(recv, interp.Opaque):
+            pat = next((v for k_, v in statics.items() if k_ in str(recv.what) or str(recv.what) in k_), None)
+            if pat is None or not args or not isinstance(args[0], str):
+                return None
+            mt = _re.search(pat, args[0])
+            if m_ == "is_match":
+                return (mt is not None,)
+            if mt is None:
+                return (interp.NONE,)
+            return (interp.some({"__cap": {i: mt.group(i) for i in range(0, (mt.re.groups or 0) + 1)}}),)
+        if node.get("k") == "Index" and isinstance(recv, dict) and "__cap" in recv and args:
+            g = recv["__cap"].get(args[0])
+            if g is None:
+                raise interp.Undecided("capture group %s absent (a panic in the analysed code)" % args[0])
+            return (g,)
+        if isinstance(recv, dict) and "__cap" in recv and m_ == "get" and args:
+            g = recv["__cap"].get(args[0])
+            return (interp.some({"__match": g}) if g is not None else interp.NONE,)
+        if isinstance(recv, dict) and "__match" in recv and m_ == "as_str":
+            return (recv["__match"],)
+        if m_ == "parse" and isinstance(recv, str):
+            try:
+                return (interp.V("Result::Ok", [int(recv)]),) if _re.fullmatch(r"[+-]?[0-9]+", recv) else (interp.V("Result::Err", [interp.Opaque("parse error")]),)
+            except ValueError:
+                return (interp.V("Result::Err", [interp.Opaque("parse error")]),)
+        return None
+
     def lex(parts):
-        L = interp.Interp(prog=ctx.prog).run(nh, {nps[0]["id"]: list(parts)})
+        L = interp.Interp(prog=ctx.prog, call=rx_call).run(nh, {nps[0]["id"]: list(parts)})
         out = []
-        for _ in range(40):
-            r = interp.Interp(prog=ctx.prog, max_steps=200000).run(xh, {xps[0]["id"]: L})
+        for _ in range(60):
+            r = interp.Interp(prog=ctx.prog, call=rx_call, max_steps=400000).run(xh, {xps[0]["id"]: L})
             if r == interp.NONE:
                 return out
             out.append(r.args[0] if isinstance(r, interp.V) and r.args else r)
@@ -599,6 +638,61 @@ def lexer_split_invariance(ctx):
             break
     ctx.covered("one-argument vs. split renderings of 4 queries lexed by interpretation and compared", n, distinct_keys=["split-points:%d" % n], exhaustive=False)
     ctx.floor(n, 10, "split renderings compared", nx)
+    # the same relation for letter case: keywords, column and function names are case-insensitive, so a query and its
+    # upper-cased spelling (outside quoted literals) are cut into the same lexems - also where an arithmetic operator is
+    # glued to a name (`SIZE-1`, `Size*2`), which the lexer decides by looking at the pieces around the operator
+    def upper_outside_quotes(q):
+        out, quote = [], None
+        for ch in q:
+            if quote:
+                out.append(ch)
+                if ch == quote:
+                    quote = None
+            elif ch in "'\"`":
+                quote = ch
+                out.append(ch)
+            else:
+                out.append(ch.upper())
+        return "".join(out)
+
+    def capitalised(q):
+        out, quote, start = [], None, True
+        for ch in q:
+            if quote:
+                out.append(ch)
+                if ch == quote:
+                    quote = None
+                continue
+            if ch in "'\"`":
+                quote = ch
+            out.append(ch.upper() if start and ch.isalpha() else ch)
+            start = not (ch.isalnum() or ch == "_")
+        return "".join(out)
+    cq = ["name, size-1, size*2 from /tmp/x where size%2 eq 1 and size/3 gt 1",
+          "select name from . where not name like 'A b' or size between 1 and 5 order by size desc limit 3 into json",
+          "count(*), max(size)+1, line_count-1 from /x where is_dir eq false group by ext",
+          "lower(name), length(name)*2 from . where modified gte 2020-01-01 and name rx x.*"]
+    m = 0
+    norm_ = lambda ls: [(l.name, tuple(str(a).lower() for a in l.args)) if isinstance(l, interp.V) else repr(l).lower() for l in ls]
+    for q in cq:
+        try:
+            base = lex([q])
+            for variant in (upper_outside_quotes(q), capitalised(q)):
+                got = lex([variant])
+                m += 1
+                ok = norm_(got) == norm_(base)
+                ctx.obligation(ok)
+                if not ok:
+                    ctx.violation("lexer/case/%d" % cq.index(q), ctx.where(nx),
+                                  "the query `%s` is lexed as %s, its spelling `%s` as %s: letter case outside quoted literals must not change how the "
+                                  "query is cut into lexems" % (q, base, variant, got))
+                    break
+        except interp.Undecided as e:
+            ctx.obligation(False)
+            ctx.violation("lexer/case/unreadable", ctx.where(nx), "cannot evaluate the lexer on `%s`: %s" % (q, e))
+            break
+    ctx.covered("lower-case vs. upper-case / capitalised spellings of 4 queries lexed by interpretation and compared", m, distinct_keys=["spellings:%d" % m], exhaustive=False)
+    ctx.floor(m, 8, "letter-case spellings compared", nx)
 
 
 def user_config_wins(ctx):
@@ -688,3 +782,109 @@ def value_walks_reach_arguments(ctx):
                           "what it decides is wrong for expressions such as least(4096, size) or concat(name, count(*))" % short(name, 2))
     ctx.covered("recursive walks of the value layer of Expr (left, right and args visited)", n, distinct_keys=walks)
     ctx.floor(n, 2, "recursive value-layer walks of Expr", "expr::Expr")
+
+
+def where_tree_reaches_query(ctx):
+    """X-QUERY: what the clause parsers return is what the Query holds.  The initialisers of the fields `expr`, `fields` and
+    `grouping_fields` of the Query built by Parser::parse are evaluated (finite interpreter) with the clause parsers as
+    stand-ins.  For the WHERE tree the stand-in returns every tree of three conditions joined by AND / OR in both bracketings,
+    each condition cheap (a name test) or expensive (reads the file): the tree stored in the query must have the same truth
+    table over the same conditions - a pass that reorders or rewrites the tree between parse_where and the query (an
+    optimiser) is followed through and must preserve the Boolean function."""
+    import interp
+    import itertools
+    from extra import _expr_dict
+    PARSE = "parser::Parser::parse"
+    hir = ctx.anchor_hir(PARSE)
+    lits = [x for x in walk_exprs(hir) if x["k"] == "Struct" and str(x.get("res", "")).endswith("query::Query")]
+    if len(lits) != 1:
+        ctx.obligation(False)
+        ctx.violation("query-literal/anchor", ctx.where(PARSE), "Parser::parse no longer builds exactly one Query (found %d struct literals)" % len(lits))
+        return
+    finit = {f["name"]: f["e"] for f in lits[0]["fields"]}
+    some, NONE, V = interp.some, interp.NONE, interp.V
+    E = lambda **kw: _expr_dict(interp, **kw)
+
+    def atom(name, expensive):
+        col = "Field::LineCount" if expensive else "Field::Name"
+        d = E(left=some(E(field=some(V(col)))), op=some(V("Op::Eq")), right=some(E(val=some(name))))
+        return d
+
+    def truth(t, env, seen):
+        """truth value of a tree of Expr dictionaries; leaves are recognised by the literal on their right-hand side"""
+        t = t.args[0] if isinstance(t, V) and t.name == "Option::Some" else t
+        if not isinstance(t, dict):
+            raise interp.Undecided("not an expression: %r" % (t,))
+        lo = t.get("logical_op")
+        if isinstance(lo, V) and lo.name == "Option::Some":
+            l, r = truth(t["left"], env, seen), truth(t["right"], env, seen)
+            nm = lo.args[0].name if isinstance(lo.args[0], V) else str(lo.args[0])
+            if nm.endswith("And"):
+                return l and r
+            if nm.endswith("Or"):
+                return l or r
+            raise interp.Undecided("connective %s" % nm)
+        r = t.get("right")
+        r = r.args[0] if isinstance(r, V) and r.name == "Option::Some" else r
+        v = r.get("val") if isinstance(r, dict) else None
+        v = v.args[0] if isinstance(v, V) and v.name == "Option::Some" else v
+        if v not in env:
+            raise interp.Undecided("a condition that was not in the parsed tree: %r" % (v,))
+        seen.append(v)
+        return env[v]
+
+    def join(l, op, r):
+        return E(left=some(l), logical_op=some(V("LogicalOp::" + op)), right=some(r))
+    n = 0
+    bad = None
+    for costs in itertools.product((False, True), repeat=3):
+        A, B, C = (atom(nm, c) for nm, c in zip("ABC", costs))
+        for o1, o2 in itertools.product(("And", "Or"), repeat=2):
+            for shape in ("A o1 (B o2 C)", "(A o1 B) o2 C"):
+                tree = join(A, o1, join(B, o2, C)) if shape.startswith("A") else join(join(A, o1, B), o2, C)
+                import copy
+                given = copy.deepcopy(tree)
+
+                def call(node, recv, args, it, env, given=given):
+                    m_ = node.get("m")
+                    callee = str(node.get("callee", ""))
+                    if m_ == "parse_where" or callee.endswith("Parser::parse_where"):
+                        return (V("Result::Ok", [some(given)]),)
+                    if (m_ or "").startswith("parse_") or "Parser::parse_" in callee:
+                        return (V("Result::Ok", [interp.Opaque(m_ or callee)]),)
+                    if m_ in ("clone", "to_owned") and isinstance(recv, dict):
+                        return (copy.deepcopy(recv),)
+                    return None
+                try:
+                    it = interp.Interp(call=call, prog=ctx.prog, max_steps=40000)
+                    locs_ = Locals(hir)
+                    node_ = peel(finit["expr"])
+                    if node_["k"] == "Path" and node_.get("rk") == "Local" and node_["res"] in locs_.defs:
+                        node_ = locs_.defs[node_["res"]]          # evaluated directly, so that what cannot be read is named
+                    got = it.run(node_, interp.LazyEnv(it, locs_, {}))
+                    if isinstance(got, interp.Opaque):
+                        raise interp.Undecided("the WHERE tree of the query is %r" % (got,))
+                    for vals in itertools.product((False, True), repeat=3):
+                        env = dict(zip("ABC", vals))
+                        s1, s2 = [], []
+                        if truth(got, env, s1) != truth(tree, env, s2):
+                            raise ValueError("with A=%s B=%s C=%s the stored tree is %s, the parsed one %s" % (vals + (truth(got, env, []), truth(tree, env, []))))
+                except interp.Undecided as e:
+                    bad = ("unreadable", "cannot follow the WHERE tree from parse_where to the query (%s, conditions reading the file: %s): %s" %
+                           (shape.replace("o1", o1.upper()).replace("o2", o2.upper()), [nm for nm, c in zip("ABC", costs) if c], e))
+                    break
+                except ValueError as e:
+                    bad = ("rewritten", "the WHERE tree parsed as `%s` (conditions reading the file: %s) is stored in the query as another Boolean function: %s" %
+                           (shape.replace("o1", o1.upper()).replace("o2", o2.upper()), [nm for nm, c in zip("ABC", costs) if c] or "none", e))
+                    break
+                n += 1
+            if bad:
+                break
+        if bad:
+            break
+    ctx.obligation(bad is None)
+    if bad:
+        ctx.violation("query-literal/where/%s" % bad[0], ctx.where(PARSE, finit["expr"]), bad[1])
+    ctx.covered("WHERE trees (3 conditions x AND/OR x bracketing x cheap/expensive) followed from parse_where into the Query: same truth table", n,
+                distinct_keys=["expr"], exhaustive=True)
+    ctx.floor(n, 64, "WHERE trees followed into the query", PARSE)
